@@ -394,6 +394,57 @@ fn judge<F: Fl>(c: &Case, l: &mut Local) {
     }
 }
 
+/// Equivariance must not depend on what was computed in between: the original and the transformed
+/// unpaired comparison are separated by mean intervals of other samples whose degrees of freedom sweep
+/// the integers around the (real-valued) effective degrees of freedom of the comparison, at the same
+/// confidence. An implementation that remembers a critical value per (confidence, integer part of dof)
+/// then serves the transformed data a value the original did not get.
+fn hidden_state_lane(seed: u64, i: u64, l: &mut Local) {
+    let mut r = Rng::from(&[seed, 0xc16d, i]);
+    let (na, nb) = (r.range(3, 7) as usize, r.range(4, 9) as usize);
+    let a: Vec<f64> = (0..na).map(|_| r.range(-40, 40) as f64 * 0.25).collect();
+    let b: Vec<f64> = (0..nb).map(|_| r.range(-400, 400) as f64 * 0.125 * if i % 3 == 0 { 0.25 } else { 1.0 }).collect();
+    if a.iter().all(|x| *x == a[0]) || b.iter().all(|x| *x == b[0]) {
+        return;
+    }
+    let e = *r.pick(&[-20, -3, 5, 17]);
+    let (a2, b2) = (scale::<f64>(&a, e), scale::<f64>(&b, e));
+    let filler = |n: usize| -> Vec<f64> { (0..n).map(|j| (j * j % 7) as f64 + j as f64 * 0.5).collect() };
+    let kind = KINDS[(i % 3) as usize];
+    let level = *r.pick(&[0.95, 0.9, 0.75, 0.99]);
+    let f = 2f64.powi(e);
+    for m in (na.min(nb) - 1)..=(na + nb - 2) {
+        // m = candidate integer part of the effective dof
+        let _ = ci_of::<f64>(Prod::Arithmetic, kind, level, &filler(m + 3), &vec![]);
+        let o = ci_of::<f64>(Prod::Unpaired, kind, level, &a, &b);
+        let _ = ci_of::<f64>(Prod::Arithmetic, kind, level, &filler(m + 3), &vec![]);
+        let _ = ci_of::<f64>(Prod::Arithmetic, kind, level, &filler(m + 1), &vec![]);
+        let t = ci_of::<f64>(Prod::Unpaired, kind, level, &a2, &b2);
+        l.eval();
+        l.count("scaling judged across interleaved queries");
+        match (&o, &t) {
+            (Out::Ok(o), Out::Ok(t)) => {
+                let same = |x: f64, y: f64| (x * f).to_bits() == y.to_bits() || (x.is_infinite() && x == y);
+                if !(same(o.lo, t.lo) && same(o.hi, t.hi)) {
+                    l.violation(
+                        "Unpaired|scaling-depends-on-interleaved-queries".to_string(),
+                        "scaling the data by a power of two does not scale the unpaired interval exactly once other intervals are computed in between".to_string(),
+                        json!({"what": "hidden", "i": i}),
+                        json!({"a": a, "b": b, "exponent": e, "kind": kind.name(), "level": level, "interleaved_arithmetic_sample_sizes": [m + 3, m + 1], "original": o.json(), "scaled": t.json()}),
+                    );
+                    return;
+                }
+            }
+            (x, y) => {
+                if x.class() != y.class() {
+                    l.violation("Unpaired|scaling-outcome-depends-on-interleaved-queries".to_string(), "the outcome class changes under scaling".to_string(), json!({"what": "hidden", "i": i}), json!({"original": x.describe(), "scaled": y.describe()}));
+                }
+            }
+        }
+    }
+    l.nontrivial(mix(&[0xc16d, i, seed]));
+}
+
 fn make_case(seed: u64, i: u64, levels: &[f64]) -> Case {
     let mut r = Rng::from(&[seed, 0xc16, i]);
     let f32 = i % 2 == 1;
@@ -425,10 +476,16 @@ pub fn run(run: &Arc<Run>) {
     let levels = level_grid(seed, 8);
     run.set_rule(
         "seeded samples (10 real-valued families, 5 positive ones for geometric/harmonic; f32/f64; n = 2..9, 10..200, 10^3, 3*10^3) for Arithmetic, Paired, Unpaired, Geometric, Harmonic x 9 confidences; transforms per sample: ~10 exponents over the whole range in which x, x^2, their sums, cancelled variances and compensation terms stay normal \
-         (bit-exact scaling demanded for Arithmetic/Paired/Unpaired, 8 ulp for Harmonic, a |ln|-proportional relative budget for Geometric), negation (exact mirror with upper <-> lower), 3 shifts (budget of both samples), all permutations for n <= 6 and random permutations otherwise (twice the budget). \
+         (bit-exact scaling demanded for Arithmetic/Paired/Unpaired, 8 ulp for Harmonic, a |ln|-proportional relative budget for Geometric), negation (exact mirror with upper <-> lower), 3 shifts (budget of both samples), all permutations for n <= 6 and random permutations otherwise (twice the budget); small unpaired comparisons whose original and scaled evaluations are separated by mean intervals with every integer dof around the effective one. \
          non-trivial = samples with a usable base interval; distinct = (data, producer, transform seed) fingerprints.",
     );
     run.assume("exact scaling is demanded only inside the exponent range where it is an IEEE-754 consequence for any implementation based on sums of x and x^2 (head-room 2^40 (f32) / 2^110 (f64) above the subnormal threshold of x^2)");
+    if let Some(case) = run.replay_case.as_ref().filter(|c| c["what"] == "hidden") {
+        let mut l = run.local();
+        hidden_state_lane(seed, case["i"].as_u64().unwrap(), &mut l);
+        run.absorb(l);
+        return;
+    }
     if let Some(case) = &run.replay_case {
         let c: Case = serde_json::from_value(case.clone()).expect("case");
         let mut l = run.local();
@@ -440,6 +497,7 @@ pub fn run(run: &Arc<Run>) {
         run.absorb(l);
         return;
     }
+    run.par(run.cfg.by(400u64, 20_000), |i, l| hidden_state_lane(seed, i, l));
     let n = run.cfg.by(12_000u64, 400_000);
     run.par(n, |i, l| {
         let c = make_case(seed, i, &levels);
@@ -449,7 +507,7 @@ pub fn run(run: &Arc<Run>) {
             judge::<f64>(&c, l)
         }
     });
-    let mut req: Vec<String> = vec!["scaling judged".into(), "negation judged".into(), "shift judged".into(), "reordering judged".into(), "balanced unpaired design (integer effective dof)".into()];
+    let mut req: Vec<String> = vec!["scaling judged".into(), "negation judged".into(), "shift judged".into(), "reordering judged".into(), "scaling judged across interleaved queries".into(), "balanced unpaired design (integer effective dof)".into()];
     for ty in ["f32", "f64"] {
         for p in ["Arithmetic", "Paired", "Unpaired", "Geometric", "Harmonic"] {
             req.push(format!("{}:{}", ty, p));
